@@ -7,4 +7,3 @@ open TypifyModel.C03 TypifyModel.Contain
 #print axioms roundtrip_contains
 #print axioms struct_roundtrip_contains
 #print axioms variant_roundtrip_contains
-#print axioms TypifyModel.Contain.struct_contained_flat
